@@ -270,7 +270,7 @@ C18_TranslateStatic == IsLangOut /\ Ev.lang = Ev.langbefore => \A i \in DOMAIN E
 \* the session language is the configured one until an external function selects another (valid) one, and from then on the
 \* selected one: after every request it is the last valid code returned during that request, else what it was before
 \* (across requests, engine objects, saving and loading, and the session starting over at the end of the program)
-LangCode(c) == CASE c = "nor" -> "nor" [] c = "no" -> "nor" [] c = "fra" -> "fra" [] c = "swa" -> "swa" [] c = "en" -> "eng" [] OTHER -> ""
+LangCode(c) == CASE c = "nor" -> "nor" [] c = "no" -> "nor" [] c = "fra" -> "fra" [] c = "swa" -> "swa" [] c = "en" -> "eng" [] c = "eng" -> "eng" [] OTHER -> ""
 RECURSIVE AfterCalls(_, _)
 AfterCalls(cur, calls) == IF calls = <<>> THEN cur
                           ELSE AfterCalls(IF LangCode(Head(calls)) # "" THEN LangCode(Head(calls)) ELSE cur, Tail(calls))
